@@ -129,7 +129,9 @@ def main():
         evs = [ev_parse(), ev_ct("update" if online else "evaluate", w)]
         if online and rng.random() < 0.5:
             import c05 as _c05
-            evs = [ev_parse()] + _c05.schedule_events(w, {v: rng.choice(_c05.splits(len(w[v]))) for v in vs}, 1)
+            sc_ = {v: rng.choice(_c05.splits(len(w[v]))) for v in vs}
+            # (lagging per-variable batches: some update() calls carry nothing new for a predicate's variables)
+            evs = [ev_parse()] + (_c05.staggered_events(rng, w, sc_, 1) if len(vs) > 1 and rng.random() < 0.6 else _c05.schedule_events(w, sc_, 1))
         dcases.append(case([o], evs, kind="ct_on" if online else "ct_off"))
     dtr = runner.run_cases(dcases)
     dvs, dgen, ddist = core.validate("C06_dense", dtr, module="TraceCt")
